@@ -186,7 +186,9 @@ func (c *FnCtx) tr(e *Expr, env *Env) (Term, types.Type) {
 			if isStruct(ft) {
 				return app("sub", b, num(int64(k))), types.NewPointer(ft)
 			}
-			return app("select", c.get(env.st, c.fieldComp(st, k)), b), ft
+			t := app("select", c.get(env.st, c.fieldComp(st, k)), b)
+			c.specHeapWF(t, ft, env.st)
+			return t, ft
 		}
 		if isStruct(bt) {
 			k := fieldIndex(bt, e.Name)
@@ -524,6 +526,17 @@ func (c *FnCtx) trCall(e *Expr, env *Env) (Term, types.Type) {
 		return c.get(env.st, c.elemComp(ty)), &MathArr{tInt, &MathArr{tInt, ty}}
 	case "alloc":
 		return c.get(env.st, c.comp("$alloc", "Int")), tInt
+	case "unboxTo":
+		// unboxTo(x, "*T"): the pointer stored in interface value x (meaningful when typeis(x, "*T"))
+		a, _ := arg(0)
+		if len(e.Args) < 2 || e.Args[1].Op != "str" {
+			c.specFail("unboxTo(x, \"T\")")
+		}
+		ty, err := c.g.parseSpecType(e.Args[1].Name)
+		if err != nil {
+			c.specFail("%v", err)
+		}
+		return c.unbox(a, ty), ty
 	case "asString":
 		a, _ := arg(0)
 		return c.unbox(a, tString), tString
@@ -591,6 +604,31 @@ func (c *FnCtx) trCall(e *Expr, env *Env) (Term, types.Type) {
 		return name, rt
 	}
 	return app(name, args...), rt
+}
+
+// specHeapWF: a reference or slice read from the heap in a specification is well-formed with
+// respect to the allocation counter of the state it is read in (the same fact the code gets at
+// every load). Only closed terms qualify; the fact is about fixed constants, so it is global.
+func (c *FnCtx) specHeapWF(t Term, ty types.Type, st *State) {
+	if strings.Contains(t, "q$") {
+		return
+	}
+	switch ty.Underlying().(type) {
+	case *types.Slice:
+		key := "wf|" + t
+		if c.specWFDone[key] {
+			return
+		}
+		c.specWFDone[key] = true
+		c.axioms = append(c.axioms, app("slice-wf", t, c.get(st, c.comp("$alloc", "Int"))))
+	case *types.Pointer, *types.Map:
+		key := "wf|" + t
+		if c.specWFDone[key] {
+			return
+		}
+		c.specWFDone[key] = true
+		c.axioms = append(c.axioms, app("<=", t, c.get(st, c.comp("$alloc", "Int"))))
+	}
 }
 
 // exprMentions reports whether the expression mentions any of the names.
